@@ -76,7 +76,7 @@ func (e *env) evalC(c caseC) {
 			return
 		}
 	}
-	d0 := w.StoreDigest(ctx, "consensus")
+	d0 := w.StoreDigest(ctx, world.ConsensusStore)
 	if err, panicked := world.Protect(func() error { return w.EndBlock(ctx) }); err != nil {
 		sig := "fees:end-block-error"
 		if panicked {
@@ -105,7 +105,7 @@ func (e *env) evalC(c caseC) {
 	fees := em.GetSubmitLogicCall().Fees
 	if !fits {
 		e.count("c_out_of_range_refused")
-		if msgs[0].GetGasEstimate() != 0 || fees != nil || w.StoreDigest(ctx, "consensus") != d0 {
+		if msgs[0].GetGasEstimate() != 0 || fees != nil || w.StoreDigest(ctx, world.ConsensusStore) != d0 {
 			r.Violate("fees:out-of-range-not-refused-cleanly", fmt.Sprintf("%s: reference fees (%s, %s, %s) do not fit uint64 but the message changed: elected=%d fees=%v", c, relayer, community, security, msgs[0].GetGasEstimate(), fees), rec)
 		}
 		return
